@@ -117,3 +117,18 @@ Definition ldiff (c : lcase) : float :=
     (combine out (l_out c)) 0.
 Definition maxdiff_agreeing (cs : list lcase) : float :=
   fold_left (fun acc c => if Nat.eqb (lcheck c) 0 then fmax acc (ldiff c) else acc) cs 0.
+
+(* comparison without the near-tie / amplification gates (used on the witnesses of the defect flags, which agree bit for bit) *)
+Definition lcheck_plain (c : lcase) : nat :=
+  let o := fops (l_n c) in
+  let m := Nat.min (l_mi c) (l_n c) in
+  let r := lfact o (fmv (l_A c)) (l_alias c) m (l_tol c, 0) (l_vs c) in
+  let iters := (fst r - 1)%nat in
+  let out := map (ltrim iters) (snd r) in
+  if Nat.eqb iters (l_k c) && Nat.eqb (length out) (length (l_out c)) && forallb (fun p => res_close (fst p) (snd p)) (combine out (l_out c))
+  then 0%nat else 4%nat.
+Fixpoint codes_plain (k : nat) (cs : list lcase) : list (nat * nat) :=
+  match cs with
+  | [] => []
+  | c :: t => let r := lcheck_plain c in if Nat.eqb r 0 then codes_plain (S k) t else (k, r) :: codes_plain (S k) t
+  end.
